@@ -15,7 +15,7 @@ from .. import evalenv, evaluation as E, extract, parsing as P, trees as T
 from ..common import Ctx
 from . import _evalcommon as EC
 
-MODULES = ["Ahbicht.Properties.Grammar", "Ahbicht.Properties.C09"]
+MODULES = ["Ahbicht.Properties.Grammar", "Ahbicht.Properties.C09", "Ahbicht.Properties.C09Split"]
 MARK_WORDS = {"MUSS": ["M", "Muss"], "SOLL": ["S", "Soll"], "KANN": ["K", "Kann"]}
 WS = " \t\n\r\f"
 
